@@ -65,6 +65,9 @@ const (
 	// DefaultSnapshotCount contains the number of previous snapshots stored by this contract.
 	// Must be less than 255.
 	DefaultSnapshotCount = 10
+	// maxSnapshotCount limits the number of stored snapshots: they are addressed
+	// by a single-byte ring position in snapshot keys.
+	maxSnapshotCount     = 255
 	snapshotCountKey     = "snapshotCount"
 	snapshotKeyPrefix    = "snapshot_"
 	snapshotCurrentIDKey = "snapshotCurrent"
@@ -543,11 +546,14 @@ func getSnapshotCount(ctx storage.Context) int {
 // `Snapshot` method can return invalid results for `diff = new-old` epochs
 // until `diff` epochs have passed.
 //
-// Count MUST NOT be negative.
+// Count MUST be positive and MUST NOT exceed 255.
 func UpdateSnapshotCount(count int) {
 	common.CheckAlphabetWitness()
 	if count <= 0 {
 		panic("count must be positive")
+	}
+	if count > maxSnapshotCount {
+		panic("count must not exceed 255")
 	}
 	ctx := storage.GetContext()
 	oldCount := getSnapshotCount(ctx)
